@@ -1,6 +1,6 @@
 SPECIFICATION Spec
 CONSTANTS
   MaxKeys = 2
-  KeyCols = {"name", "size", "modified", "length(name)", "ext", "uid", "length(name) * 4", "hardlinks", "is_dir", "day(modified)"}
+  KeyCols = {"name", "size", "modified", "length(name)", "ext", "uid", "blocks", "length(name) * 4", "hardlinks", "is_dir", "day(modified)"}
   WorldSel = {1, 2, 3, 4, 5, 6, 7, 8}
 INVARIANTS EmitWorld Emit
